@@ -803,6 +803,36 @@ equation
 end Top;
 """
 
+# A dotted type name whose first part is found through an unqualified import: the import resolves `A`, the
+# rest of the name (`.B`, `.C`) must be looked up inside it -- on the first lookup as on every later one.
+SHARE_IMPORTS3 = """
+package Lib
+  package A
+    model B
+      Real x = 1;
+    end B;
+    model C
+      parameter Real k = 2;
+      Real z = 2 * k;
+    end C;
+  end A;
+end Lib;
+
+package P3
+  import Lib.*;
+  model M
+    A.B b;
+  end M;
+  model N
+    A.C c(k = 5);
+    A.B b;
+  end N;
+  model E
+    extends A.C(k = 3);
+  end E;
+end P3;
+"""
+
 SHARE_LIBS = {
     "constref": SHARE_CONSTREF,
     "redeclare": SHARE_REDECLARE,
@@ -811,6 +841,7 @@ SHARE_LIBS = {
     "shortclass": SHARE_SHORTCLASS,
     "imports": SHARE_IMPORTS,
     "imports2": SHARE_IMPORTS2,
+    "imports3": SHARE_IMPORTS3,
     "funcs": SHARE_FUNCS,
     "conn": SHARE_CONN,
     "scope": SHARE_SCOPE,
